@@ -27,6 +27,7 @@ RULES = [
   (r"require/module.go:|require/resolve.go:RequireModule\.(loadModule|loadNative|resolve)", "map lookups / stores on maps allocated in the constructors; strings sliced after a HasPrefix test (C15 model exact, tied by correspondence)"),
   (r"require/resolve.go:RequireModule\.getCurrentModulePath", "frames slice indexed after a length test"),
   (r"url/escape.go:", "loop index i < len(s); table index guarded by c > 127 test; hex digits read only after i+2 < len(s) (C12 model exact on every byte string)"),
+  (r"url/nodeurl.go:utf16Less", "a[na:], b[nb:]: na, nb are the widths utf8.DecodeRuneInString returned for the non-empty a, b (1 <= n <= len)"),
   (r"url/nodeurl.go:", "indices from range loops / sort.Interface within Len(); SplitN result indexed by its length"),
   (r"url/url.go:toURL|url/urlsearchparams.go:to(URLSearchParamsIterator|UrlSearchParams)", "receiver check: ExportType compared first, then the assertion on that very type"),
   (r"url/url.go:urlModule\.createURLConstructor|url/urlsearchparams.go:urlModule\.(createURLSearchParamsConstructor|newURLSearchParams|newURLSearchParamsIterator)", "ToValue(...) of a Go function / pointer is always a *goja.Object"),
